@@ -52,10 +52,25 @@ Definition obs_of (o : out) : obs :=
 
 Definition zmem (x : Z) (l : list Z) : bool := existsb (Z.eqb x) l.
 
-(* (((fast PGNs, PGNs whose decode function raises on every payload), packets), observed per packet) *)
-Definition chk_hist (c : ((list Z * list Z) * list (list Z)) * list obs) : bool :=
-  let '(((fast, raising), packets), observed) := c in
-  let isfast pgn := if zmem pgn fast then Some true else None in
+(* the reassembly buffers left at the end of a history (decoder.data), when the harness could read them:
+   per key (payload_length, bytes_stored, sequence_counter) and the stored frames by frame counter, wire order *)
+Definition fr_eqb (a b : fr) : bool := (fst a =? fst b) && list_eqb Z.eqb (snd a) (snd b).
+Definition rec_obs := ((Z * Z * Z) * list fr)%type.
+Definition rec_eqb (r : rec) (o : rec_obs) : bool :=
+  let '((pl, sv, sq), fs) := o in
+  (plen r =? pl) && (stored r =? sv) && (rseq r =? sq) && list_eqb fr_eqb (frames r) fs.
+Definition state_ok (g : gstate) (o : option (list (key * rec_obs))) : bool :=
+  match o with
+  | None => true
+  | Some l => Nat.eqb (length g) (length l) &&
+              forallb (fun ko => match lookup (fst ko) g with Some r => rec_eqb r (snd ko) | None => false end) l
+  end.
+
+(* (((((fast PGNs, single-frame PGNs), PGNs whose decode function raises on every payload), packets),
+      observed per packet), final buffers); any other PGN has no is_fast_pgn_N function *)
+Definition chk_hist (c : ((((list Z * list Z) * list Z) * list (list Z)) * list obs) * option (list (key * rec_obs))) : bool :=
+  let '(((((fast, single), raising), packets), observed), final) := c in
+  let isfast pgn := if zmem pgn fast then Some true else if zmem pgn single then Some false else None in
   let dok (k : key) (_ : list Z) := let '(pgn, _, _) := k in negb (zmem pgn raising) in
-  let outs := snd (dec_run isfast dok [] (map tcp_frame packets)) in
-  list_eqb obs_eqb (map (fun ko => obs_of (snd ko)) outs) observed.
+  let '(g, outs) := dec_run isfast dok [] (map tcp_frame packets) in
+  list_eqb obs_eqb (map (fun ko => obs_of (snd ko)) outs) observed && state_ok g final.
